@@ -18,4 +18,7 @@ cd ../harness
 for b in $(ls src/bin | sed 's/\.rs$//'); do
   CARGO_TARGET_DIR=../.cache/target RUSTFLAGS="--cfg ethercrab_verif" cargo build --offline --bin $b > ../.cache/cargo_$b.log 2>&1 || { tail -30 ../.cache/cargo_$b.log; echo "harness bin $b failed to build (checks will report it)"; }
 done
+for b in sii; do
+  CARGO_TARGET_DIR=../.cache/target RUSTFLAGS="--cfg ethercrab_verif" cargo build --offline --release --bin $b > ../.cache/cargo_${b}_release.log 2>&1 || true
+done
 echo setup done
